@@ -181,6 +181,7 @@ impl<'a> Printer<'a> {
                 | _ => (*self.rng.pick(&["17", "{ ret 17 }", "\"wrong\""])).to_string(),
             },
             | VTy::Var(_) => (*self.rng.pick(&["17", "\"wrong\"", "()"])).to_string(),
+            | VTy::Exists(..) => (*self.rng.pick(&["17", "\"wrong\"", "{ ret 1 }"])).to_string(),
         }
     }
 
@@ -270,6 +271,7 @@ impl<'a> Printer<'a> {
                 }
             }
             | VTy::Thk(c) => (format!("Thk {}", self.cty(c, 0)), 2),
+            | VTy::Exists(tv, body) => (format!("exists ({} : VType) . {}", self.tyvar(*tv), self.vty(body, 5)), 5),
         };
         if l > level { format!("({})", s) } else { s }
     }
@@ -327,6 +329,12 @@ impl<'a> Printer<'a> {
                 let parts: Vec<String> = ps.iter().map(|p| self.pat(p)).collect();
                 format!("({})", parts.join("; "))
             }
+            | Pat::Unpack(tv, inner, _) => {
+                let t = self.tyvar(*tv);
+                let p = self.pat(inner);
+                // the contents keep their own delimiters: `(T, (a, b))`, never the flattened `(T, a, b)`
+                if p.starts_with('(') { format!("({}, {})", t, p) } else { format!("({}, ({}))", t, p) }
+            }
         }
     }
 
@@ -360,7 +368,7 @@ impl<'a> Printer<'a> {
         if checked && self.site("term-hole") {
             return "_".to_string();
         }
-        let needs_ann = !checked && matches!(v, Val::Ctor { .. });
+        let needs_ann = !checked && matches!(v, Val::Ctor { .. } | Val::Pack { .. });
         let s = match v {
             | Val::Var(x) => self.names.get(x).cloned().unwrap_or_else(|| format!("UNBOUND{}", x)),
             | Val::Int(i) => format!("{}", i),
@@ -402,6 +410,15 @@ impl<'a> Printer<'a> {
                 // `ret v/f` parses as `(ret v)/f`: a projection is not an atom
                 let f = if self.site("unknown-field") { "zz9".to_string() } else { self.field(field) };
                 format!("({}/{})", h, f)
+            }
+            | Val::Pack { witness, body } => {
+                let body_ty = match ty {
+                    | VTy::Exists(tv, b) => b.subst(*tv, witness),
+                    | _ => VTy::Unit,
+                };
+                let w = if self.site("wrong-witness") { (if matches!(witness, VTy::Int) { "String" } else { "Int64" }).to_string() } else { self.vty(witness, 0) };
+                let b = self.val(body, &body_ty, true, vis);
+                if b.starts_with('(') { format!("({}, {})", w, b) } else { format!("({}, ({}))", w, b) }
             }
         };
         if needs_ann || (self.style.annotate_all && !matches!(v, Val::Var(_)) && !ty.mentions_tyvar_free()) {
@@ -489,6 +506,18 @@ impl<'a> Printer<'a> {
                 let tail_ref: &Comp = tail;
                 self.pat_names(pat, &|x| free_in_comp(tail_ref, x), &mut vis2, &mut Vec::new());
                 let p = self.binder_pat(pat, vt);
+                // an opened package: its witness is abstract, and must not escape the opening
+                let mut injected_before = String::new();
+                let mut injected_after = String::new();
+                if let Pat::Unpack(_, _, Some((abstract_var, witness))) = pat {
+                    let a = self.names.get(abstract_var).cloned().unwrap_or_default();
+                    if self.site("existential-witness-escapes") {
+                        injected_before = format!("do zz8 <- (let {} = {} in ret {});\n", p, v, a);
+                    }
+                    if self.site("abstract-type-used-at-its-representation") {
+                        injected_after = format!("let zz9 : {} = {} in\n", self.vty(witness, 5), a);
+                    }
+                }
                 let punned = if annotate { let closed = !vt.mentions_tyvar(); let text = self.vty(vt, 5); self.pun_binder(pat, &text, closed, &mut vis2) } else { None };
                 let t = self.comp(tail, ty, checked, &vis2);
                 if let Some(alias) = punned {
@@ -511,9 +540,9 @@ impl<'a> Printer<'a> {
                     } else {
                         tys
                     };
-                    format!("let {} : {} = {} in\n{}", p, tys, v, t)
+                    format!("{}let {} : {} = {} in\n{}{}", injected_before, p, tys, v, injected_after, t)
                 } else {
-                    format!("let {} = {} in\n{}", p, v, t)
+                    format!("{}let {} = {} in\n{}{}", injected_before, p, v, injected_after, t)
                 }
             }
             | Comp::Fn { pat, ty: pty, body } => {
@@ -747,7 +776,7 @@ fn loose(c: &Comp) -> bool {
 /// Values whose printed form cannot synthesise a type on its own.
 fn needs_check(v: &Val) -> bool {
     match v {
-        | Val::Ctor { .. } => true,
+        | Val::Ctor { .. } | Val::Pack { .. } => true,
         | Val::Tuple(items) => items.iter().any(needs_check),
         | Val::Rec(items) => items.iter().any(|(_, v)| needs_check(v)),
         | Val::Thunk(c, _) => comp_needs_check(c),
@@ -784,6 +813,7 @@ pub fn free_in_val(v: &Val, x: VarId) -> bool {
         | Val::Ctor { arg, .. } => free_in_val(arg, x),
         | Val::Thunk(c, _) => free_in_comp(c, x),
         | Val::Proj(h, ..) => free_in_val(h, x),
+        | Val::Pack { body, .. } => free_in_val(body, x),
     }
 }
 
